@@ -200,9 +200,80 @@ def make(sid, front, switch, append, pre, nsym=0, twice=False, name=None):
     return ob
 
 
+def make_realfs(front, switch, append, pre, spelling):
+    """the same matrix cell on the REAL host file system (no in-memory model), with the target path spelled in different
+    ways: plain, ./x, sub/../x, absolute, ~/x (HOME pointing at the scratch directory)"""
+    def body(ctx):
+        import os
+        import shutil
+        import tempfile
+        d = tempfile.mkdtemp(prefix="verif-c10-")
+        old_cwd, old_home = os.getcwd(), os.environ.get("HOME")
+        ext = {"to_bin": "bin", "to_cas": "cas", "to_dsk": "dsk"}[switch]
+        real = os.path.join(d, "t." + ext)
+        spelled = {"plain": "t." + ext, "dot": "./t." + ext, "updown": "sub/../t." + ext, "abs": real, "tilde": "~/t." + ext}[spelling]
+        info = {"front": front, "switch": switch, "append": append, "pre": pre, "target": spelled}
+        try:
+            os.makedirs(os.path.join(d, "sub"))
+            os.chdir(d)
+            os.environ["HOME"] = d
+            before = prebuilt(pre) if pre != "absent" else None
+            if before is not None:
+                with open(real, "wb") as f:
+                    f.write(bytes(before))
+            with open(os.path.join(d, "p.asm"), "w") as f:
+                f.write("".join(SRC))
+            c = CassetteFile()
+            c.add_file(_cf("SRCFILE", 12, 9))
+            with open(os.path.join(d, "src.img"), "wb") as f:
+                f.write(bytes(c.get_buffer()))
+            if front == "asm":
+                r = cli.run_assembler(append=append, **{switch: spelled})
+            else:
+                r = cli.run_file_util(append=append, **{switch: spelled})
+            after = list(open(real, "rb").read()) if os.path.exists(real) else None
+            strays = sorted(x for x in os.listdir(d) if x not in ("sub", "p.asm", "src.img", "t." + ext))
+        finally:
+            os.chdir(old_cwd)
+            if old_home is None:
+                os.environ.pop("HOME", None)
+            else:
+                os.environ["HOME"] = old_home
+            shutil.rmtree(d, ignore_errors=True)
+        info.update({"stdout": r.out[-200:], "exc": r.exc, "strays": strays, "after_len": None if after is None else len(after)})
+        pre_is_cas, pre_is_dsk = pre == "cas", pre == "dsk"
+        may_modify = (before is None) or (append and ((switch == "to_cas" and pre_is_cas) or (switch == "to_dsk" and pre_is_dsk)))
+        fault = None
+        if r.exc:
+            fault = "traceback: " + r.exc
+        elif before is not None and after != before and not may_modify:
+            fault = "existing target modified although append does not apply"
+        elif before is not None and after is None:
+            fault = "target deleted"
+        elif before is None and after is None and spelling != "tilde" and r.out.strip() == "":
+            fault = "nothing written and nothing said"
+        info["fault"] = fault
+        return fault is None, info
+    ob = Ob("C10:realfs:%s:%s:%s:%s:%s" % (front, switch, "append" if append else "plain", pre, spelling), body, timeout=120,
+            tags={"part": "realfs"}, text="real file system: %s --%s %s onto %s, target spelled %s" % (front, switch, "--append" if append else "", pre, spelling), r4=False)
+    ob.native_only = True
+    ob.ncases = 1
+    return ob
+
+
 def obligations(tier, seed):
     obs = []
     full = tier == "thorough"
+    for spelling in ("plain", "dot", "updown", "abs", "tilde"):
+        for front in ("asm", "fu"):
+            obs.append(make_realfs(front, "to_cas", False, "cas", spelling))
+            obs.append(make_realfs(front, "to_dsk", True, "cas", spelling))
+            obs.append(make_realfs(front, "to_cas", True, "dsk", spelling))
+            if full or spelling in ("plain", "tilde"):
+                obs.append(make_realfs(front, "to_dsk", False, "dsk", spelling))
+                obs.append(make_realfs(front, "to_bin", False, "cas", spelling))
+                obs.append(make_realfs(front, "to_cas", True, "cas", spelling))
+                obs.append(make_realfs(front, "to_cas", False, "absent", spelling))
     for front in ("asm", "fu"):
         for switch in ("to_bin", "to_cas", "to_dsk"):
             for append in (False, True):
